@@ -248,6 +248,12 @@ pub fn run(ctx: &RunCtx) -> Outcome {
             return o;
         }
     }
+    {
+        let it = gen::texts(&['a', 'b'], 4);
+        if !stage(ctx, &mut o, &p, "repeats with lower bound above upper bound (rejected, or sane)", &gen::inverted_repeat_patterns(), &it) {
+            return o;
+        }
+    }
     let cases = if quick { 60_000 } else { 1_000_000 };
     stage_random(ctx, &mut o, &p, "random unrestricted", &RandCfg::wild(), &ptexts, cases, &|_| true);
     o
